@@ -407,7 +407,10 @@ def routes_for(v, r):
     S = lambda x: gv.to_source(x, r, r)      # noqa: E731
     K = lambda x: gv.src_key(x, r, r)        # noqa: E731
     k = v[0]
-    out = [("literal", S(v)), ("literal-other-order", S(v))]
+    out = [("literal", S(v)), ("literal-other-order", S(v)),
+           # bound by a definition that carries a documentation text, and handed through a function
+           ("documented-def", 'do "what it is for" def dd_ = %s; dd_ end' % S(v)), ("through-function", "(fn(p_) p_)(%s)" % S(v)),
+           ("documented-def-of-variable", 'do def plain_ = %s; "another name for it" def dd_ = plain_; dd_ end' % S(v))]
     if k in ("list", "set", "map") and _textable(v):
         out.append(("eval-of-text", "eval(string(%s))" % S(v)))
     if _jsonable(v) and k in ("list", "map"):
@@ -473,9 +476,12 @@ def run_routes(spec, ctx):
     import ckl.functions
     r = ctx.rng
     it, out = core.new_interpreter(secure=True, legacy=True)
+    specials = [("null",), ("bool", True), ("bool", False), ("int", 0), ("str", ""), ("list", ()), ("set", ()), ("map", ()), ("list", (("null",),)), ("dec", 0.0)]
     for i in range(spec["n"]):
         kinds = ["bool", "int", "dec", "str"] if i % 2 else KINDS_ALL
         v = gv.gen_value(r, depth=r.choice([1, 2, 2, 3]), kinds=kinds, containers=("list", "map", "map", "set") if i % 2 == 0 else ("list", "map"))
+        if i < len(specials):
+            v = specials[i]
         if i % 2:
             # JSON-shaped: maps keyed by strings
             def strkeys(x):
